@@ -950,6 +950,19 @@ def h_any(a, axis=None, **kw):
     return SBool(z3.Or(xs)) if xs else False
 
 
+def h_flatnonzero(a):
+    """indices of the non-zero elements of the flattened array (one fork per symbolic element)"""
+    out = []
+    for j, x in enumerate(a.a.ravel()):
+        if isinstance(x, (SBool, bool, real_np.bool_)):
+            nz = bool(x)
+        else:
+            nz = bool(x != 0)
+        if nz:
+            out.append(j)
+    return real_np.array(out, dtype=real_np.intp)
+
+
 def h_amax(a, axis=None, **kw):
     return a._extreme(True, axis, **{k: v for k, v in kw.items() if k == "initial"})
 
@@ -1404,7 +1417,7 @@ HANDLERS = dict(unique=h_unique, argmax=h_argmax, pad=h_pad, array_equal=h_array
                 flip=h_flip, squeeze=h_squeeze, expand_dims=h_expand_dims,
                 concatenate=h_concatenate, stack=h_stack, append=h_append, clip=h_clip,
                 any=h_any, all=h_all, sum=h_sum, dot=h_dot, can_cast=h_can_cast, shape=h_shape,
-                ndim=h_ndim, size=h_size, copy=h_copy, insert=h_insert, savetxt=h_savetxt, swapaxes=h_swapaxes, rollaxis=h_rollaxis, atleast_3d=h_atleast_3d, amax=h_amax, amin=h_amin, max=h_amax, min=h_amin,
+                ndim=h_ndim, size=h_size, copy=h_copy, insert=h_insert, savetxt=h_savetxt, swapaxes=h_swapaxes, rollaxis=h_rollaxis, atleast_3d=h_atleast_3d, amax=h_amax, amin=h_amin, max=h_amax, min=h_amin, flatnonzero=h_flatnonzero,
                 iscomplexobj=h_iscomplexobj, broadcast_to=h_broadcast_to)
 
 
